@@ -478,7 +478,17 @@ def run_concrete(fn: ast.AST, env: Dict[str, object], tolerant: bool = False):
       elif isinstance(st, ast.Raise):
         raise Raised(unparse(st.exc, 60) if st.exc is not None else 'raise')
       elif isinstance(st, ast.For) and isinstance(st.target, ast.Name) and not st.orelse:
-        for v in list(neval(st.iter, env)):
+        try:
+          items = list(neval(st.iter, env))
+        except NoValue:
+          if not tolerant:
+            raise
+          # tolerant mode: a loop over something outside the model is skipped; whatever it binds is unknown afterwards
+          for x in ast.walk(st):
+            if isinstance(x, ast.Name) and isinstance(x.ctx, ast.Store):
+              env.pop(x.id, None)
+          continue
+        for v in items:
           env[st.target.id] = v
           try:
             block(st.body)
